@@ -27,6 +27,22 @@ ASSUMPTIONS = ["an infeasible interval makes the split problem report failure (n
 SPLITS = ["6h", "7h", "12h", "d", "d", "2d", "W"]
 
 
+def blocks_aligned(g, split, b):
+    """True if every interval of the split begins on a block boundary of a storage whose blocks of b steps are counted
+    from the grid start (then the blocks inside each interval are blocks of the unsplit problem)"""
+    import pandas as pd
+    pts = [pd.Timestamp(p_) for p_ in tl.points(g)]
+    try:
+        cuts = pd.date_range(start=pts[0], end=tl.end(g), freq=split)
+    except Exception:
+        return False
+    for c_ in cuts:
+        later = [i for i, p_ in enumerate(pts) if p_ >= c_]
+        if later and later[0] % b != 0:
+            return False
+    return True
+
+
 @st.composite
 def _strategy(draw):
     g = draw(gen.grids(min_T=3, max_T=16, freqs=["h", "h", "2h", "4h", "6h", "d", "15min"]))
@@ -61,6 +77,17 @@ def _strategy(draw):
         assets.append(a)
     assets += gen.markets(cx, draw=draw)
     spec = {"grid": g, "prices": cx.prices, "assets": assets, "split": draw(st.sampled_from(SPLITS)), "category": cat}
+    spec["excluded_known"] = 0
+    if cat == "storage" and g.get("tz") in (None, "UTC") and draw(st.integers(0, 2)) == 0:
+        # storages with time blocks (level returns to the start level at every block boundary).  The blocks of the
+        # unsplit problem must also be blocks of the intervals - otherwise known finding D60 (excluded, counted)
+        for a in assets:
+            if a["type"] == "storage" and not a.get("inflow"):
+                b = draw(st.integers(1, max(1, g["T"] // 2)))
+                if blocks_aligned(g, spec["split"], b):
+                    a["block"] = b
+                else:
+                    spec["excluded_known"] += 1
     if draw(st.integers(0, 4)) == 0:
         # phases that do not touch: steps (possibly whole intervals) in which no asset is active
         spec["gap"] = gen.make_gap(draw, spec)
